@@ -539,6 +539,8 @@ func projectDisp(s *vt.Sched, j int, qid string) ([]string, bool) {
 			}
 		case si.Field == "curProcessing":
 			emit("? " + ev.Kind + " on curProcessing at " + si.Name)
+		case si.Field == "concurrency" && ev.Kind != "load" && ev.Kind != "store" && ev.Kind != "swap" && strings.HasPrefix(fn, "worker."):
+			emit("? " + ev.Kind + " on the concurrency limit at " + si.Name)
 		case si.Field == "status" && strings.HasPrefix(fn, "worker.") && ev.Kind == "store":
 			emit("ststore " + ev.Val)
 		case si.Field == "status" && strings.HasPrefix(fn, "worker.") && ev.Kind == "load":
@@ -832,12 +834,16 @@ func writeWakeSlices(w *bufio.Writer, s *vt.Sched, tag string) int {
 			add(idx, "kopen")
 		case ev.Kind == "ad:inject":
 			cands = append(cands, cand{idx, t, "kforeign 1 %s"})
-		case si.Field == "concurrency" && ev.Kind == "store":
+		case si.Field == "concurrency" && (ev.Kind == "store" || ev.Kind == "swap"):
+			nv := strings.Fields(ev.Val)[0] // a swap logs "new old"
 			if conc0 == "" {
-				conc0 = ev.Val
+				conc0 = nv
 				continue
 			}
-			cands = append(cands, cand{idx, t, "kconc " + ev.Val + " %s"})
+			cands = append(cands, cand{idx, t, "kconc " + nv + " %s"})
+		case si.Field == "concurrency" && ev.Kind != "load" && strings.HasPrefix(fn, "worker."):
+			// the limit is only ever stored (TunePool, configuration): a read-modify-write of it is not this code
+			add(idx, "? "+ev.Kind+" on the concurrency limit at "+si.Name)
 		case ev.Kind == "trysend" && si.Field == "eventLoopSignal":
 			notifies = append(notifies, struct{ idx, tid int }{idx, t})
 			add(idx, "knotify")
